@@ -16,7 +16,7 @@ import ast
 import sympy as sp
 
 from ..core import spelling
-from ..core.astutil import norm, ParentMap
+from ..core.astutil import cn, norm, ParentMap
 from ..core.cfg import CFG
 from ..core.loader import walk_no_nested
 from ..core.pattern import Matcher
@@ -212,7 +212,7 @@ def _module(prog, rep, modname):
     feats['stat-calls'] = allc
     # permutation scheme
     perm = [norm(s.value) for s in ast.walk(scope) if isinstance(s, ast.Assign) and norm(s.targets[0]) == 'd']
-    wantp = sorted(['np.hstack((xmat, ymat)) * np.hstack((indperm, indperm))', 'np.hstack((xmat, ymat))[:, rng.permutation(nx + ny)]'])
+    wantp = sorted([cn('np.hstack((xmat, ymat)) * np.hstack((indperm, indperm))'), cn('np.hstack((xmat, ymat))[:, rng.permutation(nx + ny)]')])
     rep.ob('F.permutation-scheme', f, '; '.join(sorted(perm)), sorted(perm) == wantp,
            'unpaired: permute subject columns across both groups; paired: flip the sign of each subject pair', line=f.node.lineno)
     feats['perm'] = sorted(perm)
